@@ -18,6 +18,7 @@
 package trace
 
 import (
+	"bytes"
 	"context"
 	"fmt"
 	"maps"
@@ -661,6 +662,12 @@ func mustDecodeTagValueAndArray(valueType pbv1.ValueType, value []byte, valueArr
 				values = append(values, string(v))
 			}
 			return strArrTagValue(values)
+		}
+		// UnmarshalVarArray un-escapes in place, but value is not owned by this row: a
+		// dictionary-encoded column hands the same entry to every row that carries the value.
+		// Decode a private copy whenever the decoder would write.
+		if bytes.IndexByte(value, encoding.Escape) >= 0 {
+			value = bytes.Clone(value)
 		}
 		var (
 			end  int
